@@ -398,6 +398,14 @@ def Spells (base : Nat) : List Nat → List Nat → Prop
   | c :: cs, d :: ds => digitVal c = some d ∧ d < base ∧ Spells base cs ds
   | _, _ => False
 
+instance decSpells (base : Nat) : (cs ds : List Nat) → Decidable (Spells base cs ds)
+  | [], [] => isTrue trivial
+  | [], _ :: _ => isFalse (fun h => h)
+  | _ :: _, [] => isFalse (fun h => h)
+  | c :: cs, d :: ds =>
+    have := decSpells base cs ds
+    inferInstanceAs (Decidable (digitVal c = some d ∧ d < base ∧ Spells base cs ds))
+
 def valIn (base : Nat) (ds : List Nat) : Nat := ds.foldl (fun n d => n * base + d) 0
 
 theorem foldl_ge (base : Nat) : ∀ (l : List Nat) (a : Nat), 1 ≤ base → a ≤ l.foldl (fun n d => n * base + d) a := by
